@@ -409,6 +409,55 @@ def run_pipelines(ctx, n_models, seed_offset=0, spec_only=False):
   return dict(spec_failures=spec_failures, disagreements=dis, hist=hist, evaluations=len(plan), skipped=skipped)
 
 
+# ----------------------------------------------------------------------------- shrinking
+
+
+def shrink(m, fail):
+  """smaller forests on which the same clause still fails: the failing link alone (attached to the
+  world), then the chain of its ancestors; falls back to the original input"""
+  if m.meta is None or fail.get('check') != 'roundtrip':
+    return fail
+  bodies, i = m.meta['bodies'], fail['link']
+  qs, ds = slices(m.sys)
+  q, qd = np.asarray(fail['q']), np.asarray(fail['qd'])
+  chain = [i]
+  while bodies[chain[0]]['parent'] != -1:
+    chain.insert(0, bodies[chain[0]]['parent'])
+  for keep in ([i], chain):
+    if len(keep) == len(bodies):
+      continue
+    sub = [dict(bodies[b], parent=(k - 1 if k > 0 else -1)) for k, b in enumerate(keep)]
+    o = dict(modelgen.DEFAULTS, collide=False, ground=False)
+    try:
+      m2 = Model(modelgen.to_xml(sub, [], o), dict(bodies=sub))
+      q2 = np.concatenate([q[qs[b][0]:qs[b][1]] for b in keep])
+      qd2 = np.concatenate([qd[ds[b][0]:ds[b][1]] for b in keep])
+      if m2.kinds != [m.kinds[b] for b in keep]:
+        continue
+      *_, rq, rqd = m2.roundtrip(q2, qd2)
+      fails, _ = spec_roundtrip(m2, q2, qd2, rq, rqd)
+    except Exception:        # a shrunk document that does not load is just not a candidate
+      continue
+    same = [f for f in fails if f['key'] == fail['key']]
+    if same:
+      same[0]['shrunk_from_links'] = len(bodies)
+      return same[0]
+  return fail
+
+
+def shrink_all(models, fails, limit=3):
+  """shrink the first failure of each distinct key (at most `limit`), smallest inputs first"""
+  by_xml = {m.xml: m for m in models}
+  out, seen = [], set()
+  for f in fails:
+    if f['key'] in seen or len(out) >= limit:
+      continue
+    seen.add(f['key'])
+    m = by_xml.get(f.get('xml'))
+    out.append(shrink(m, f) if m is not None else f)
+  return out + list(fails[:20])
+
+
 # ----------------------------------------------------------------------------- API
 
 
@@ -433,7 +482,7 @@ def correspond(ctx):
            '(link_types, parents, stack kinds)',
       samples=[dict(link_types=m0.sys.link_types, parents=list(m0.sys.link_parents), stacks=m0.kinds)],
       disagreements=r['disagreements'] + p['disagreements'],
-      spec_failures=r['spec_failures'] + p['spec_failures'],
+      spec_failures=shrink_all(r['models'], r['spec_failures']) + p['spec_failures'],
       trusted_base=['correspondence harness corr_C08.py (sampled inputs, float64, 1e-9 relative+absolute)',
                     'scan.link_types modelled as the per-link slicing it implements (Layer B stage 1), tied by this correspondence',
                     'Kin.forward tied to kinematics.forward by C01 (re-checked here through the rt leg)',
@@ -456,7 +505,7 @@ def search(ctx, broken, corr):
   k = 0
   while time.time() - t0 < budget and not found and k < 20:
     r = run_cases(ctx, ctx.budget(15, 60), 3, seed_offset=1000 + 37 * k, spec_only=True)
-    found += r['spec_failures']
+    found += shrink_all(r['models'], r['spec_failures'])
     if not found and time.time() - t0 < budget:
       found += run_pipelines(ctx, 3, seed_offset=1000 + 37 * k, spec_only=True)['spec_failures']
     k += 1
